@@ -73,6 +73,9 @@ class SDecimal:
                 return SDecimal(x.e, 0, grouping=bool(m2.group(1)), src=x)
             raise OutsideModel(f"format spec {spec!r}")
         k = builtins.int(m.group(2))
+        if type(x).__name__ == "SRl":
+            from .sarray import SRl
+            return SDecimal(SRl(x.r * (10 ** k)).rne(), k, grouping=bool(m.group(1)), src=x)
         n, d = exact_num_den(x)
         num = n * (10 ** k)
         if d == 1:
@@ -145,12 +148,43 @@ class SStr:
     def __str__(self):
         return _register(self)
 
+    def _eq_term(self, o):
+        import z3
+        from .core import SBool
+        o = o if isinstance(o, SStr) else SStr([o])
+        a, b = self.parts, o.parts
+        if len(a) != len(b):
+            raise OutsideModel("comparison of symbolic strings with different structure")
+        conds = []
+        for x, y in zip(a, b):
+            if isinstance(x, str) and isinstance(y, str):
+                if x != y:
+                    return False
+            elif isinstance(x, SDecimal) and isinstance(y, SDecimal) and x.k == y.k and x.grouping == y.grouping:
+                conds.append(x.D == y.D)
+            else:
+                raise OutsideModel("comparison of symbolic strings with different structure")
+        if not conds:
+            return True
+        return SBool(z3.And(conds))
+
+    def __eq__(self, o):
+        return self._eq_term(o)
+
+    def __ne__(self, o):
+        r = self._eq_term(o)
+        if isinstance(r, bool):
+            return not r
+        return ~r
+
+    __hash__ = None
+
     def __repr__(self):
         return "SStr(" + "+".join(repr(p) for p in self.parts) + ")"
 
 
 def sym_format(x, spec=""):
-    if isinstance(x, (SInt, SQuot)) or type(x).__name__ == "SDy":
+    if isinstance(x, (SInt, SQuot)) or type(x).__name__ in ("SDy", "SRl"):
         return SDecimal.of(x, spec)
     return builtins.format(x, spec)
 
